@@ -5,12 +5,17 @@ import json, pathlib, subprocess, sys
 VERIF = pathlib.Path(__file__).resolve().parent.parent
 sys.path.insert(0, str(VERIF))
 from sa.model import Program
-from sa.normalise import symbols_of, signatures, Canonicaliser
+from sa.normalise import symbols_of, signatures, Canonicaliser, body_hash
 root = sys.argv[1] if len(sys.argv) > 1 else '/repo'
 P0 = Program(root)
 syms = sorted(symbols_of(P0))
+# digest of every method / function body and its positional parameters, on the raw tree
+bodies = {}
+for u in P0.all_units(with_closures=False):
+    if u.kind != 'setter':
+        bodies[u.qual] = [body_hash(u.node), [a.arg for a in u.node.args.posonlyargs + u.node.args.args]]
 # locals of every function, after the canonicalisation passes (which fold alias locals), with what defines them
-C = Canonicaliser(P0, pinned=set(syms), pinned_locals={})
+C = Canonicaliser(P0, pinned=set(syms), pinned_locals={}, pinned_bodies={})
 C.run()
 locs = {}
 for u in P0.all_units(with_closures=False):
@@ -18,6 +23,6 @@ for u in P0.all_units(with_closures=False):
     if sg:
         locs[u.qual] = sg
 head = subprocess.run(['git', '-C', root, 'rev-parse', 'HEAD'], capture_output=True, text=True).stdout.strip()
-(VERIF / 'sa' / 'pinned.json').write_text(json.dumps({'reference_commit': head, 'symbols': syms, 'locals': locs},
+(VERIF / 'sa' / 'pinned.json').write_text(json.dumps({'reference_commit': head, 'symbols': syms, 'locals': locs, 'bodies': bodies},
                                                       indent=0, sort_keys=True) + '\n')
 print(len(syms), 'symbols and the locals of', len(locs), 'functions frozen from', head)
